@@ -12,11 +12,16 @@ macro_rules | `(tactic| ginv_step) => `(tactic| dsimp only)
 macro_rules | `(tactic| ginv_step) => `(tactic| (guard_world_lit; with_reducible apply GInv.setEvWaiters))
 macro_rules | `(tactic| ginv_step) => `(tactic| (guard_world_lit; with_reducible apply GInv.setGvars))
 macro_rules | `(tactic| ginv_step) => `(tactic| (guard_world_lit; with_reducible apply GInv.setFlags))
-macro_rules | `(tactic| ginv_step) => `(tactic| (guard_world_lit; with_reducible apply GInv.setPqs))
-macro_rules | `(tactic| ginv_step) => `(tactic| (guard_world_lit; with_reducible apply GInv.setOqs))
-macro_rules | `(tactic| ginv_step) => `(tactic| (guard_world_lit; with_reducible apply GInv.setBufs))
-macro_rules | `(tactic| ginv_step) => `(tactic| (guard_world_lit; with_reducible apply GInv.setPools))
-macro_rules | `(tactic| ginv_step) => `(tactic| (guard_world_lit; with_reducible apply GInv.setRes))
+macro_rules | `(tactic| ginv_step) => `(tactic| (guard_world_lit; with_reducible refine GInv.setPqsModify ?_ _ _ (fun _ => rfl)))
+macro_rules | `(tactic| ginv_step) => `(tactic| (guard_world_lit; with_reducible refine GInv.setPqsSet ?_ _ _ (by stat_side)))
+macro_rules | `(tactic| ginv_step) => `(tactic| (guard_world_lit; with_reducible refine GInv.setOqsModify ?_ _ _ (fun _ => rfl)))
+macro_rules | `(tactic| ginv_step) => `(tactic| (guard_world_lit; with_reducible refine GInv.setOqsSet ?_ _ _ (by stat_side)))
+macro_rules | `(tactic| ginv_step) => `(tactic| (guard_world_lit; with_reducible refine GInv.setBufsModify ?_ _ _ (fun _ => rfl)))
+macro_rules | `(tactic| ginv_step) => `(tactic| (guard_world_lit; with_reducible refine GInv.setBufsSet ?_ _ _ (by stat_side)))
+macro_rules | `(tactic| ginv_step) => `(tactic| (guard_world_lit; with_reducible refine GInv.setPoolsModify ?_ _ _ (fun _ => rfl)))
+macro_rules | `(tactic| ginv_step) => `(tactic| (guard_world_lit; with_reducible refine GInv.setPoolsSet ?_ _ _ (by stat_side)))
+macro_rules | `(tactic| ginv_step) => `(tactic| (guard_world_lit; with_reducible refine GInv.setResModify ?_ _ _ (fun _ => rfl)))
+macro_rules | `(tactic| ginv_step) => `(tactic| (guard_world_lit; with_reducible refine GInv.setResSet ?_ _ _ (by stat_side)))
 macro_rules | `(tactic| ginv_step) => `(tactic| split)
 macro_rules | `(tactic| ginv_step) => `(tactic| with_reducible apply GInv.evCancel_fst)
 macro_rules | `(tactic| ginv_step) => `(tactic| (with_reducible refine GInv.sched_harmless ?_ _ _ _ _ _ (by decide)))
